@@ -56,6 +56,17 @@ def model_line(c, K, cvs):
         p = ["ABMD", hx(M["k"]), hx(M["stop"]), "1" if M["dec"] else "0", str(c["it0"]), str(T), str(K)]
         p += [hx(cvs[t][0]) for t in range(T)]
         return " ".join(p)
+    if fam == "meta":
+        nd = len(M["vars"])
+        p = ["META", str(nd)]
+        for v in M["vars"]:
+            p += [hx(v["sigma"]), hx(v["w"]), hx(v["lower"]), hx(v["upper"]), str(v["nx"]), "1" if v.get("expand") else "0"]
+        p += [hx(M["W"]), hx(M["hw"]), str(M["freq"]), str(M["gfreq"]), "1" if M["use_grids"] else "0",
+              "1" if M["keep"] else "0", "1" if M["wt"] else "0", hx(M["bt"]), hx(0.001987191)]
+        p += [str(c["it0"]), str(T), str(K)]
+        for t in range(T):
+            p += [hx(x) for x in cvs[t]]
+        return " ".join(p)
     if fam == "abf":
         nd = M["nd"]
         p = ["ABF", str(nd)] + [hx(x) for x in M["lower"]] + [hx(x) for x in M["width"]] + [str(n) for n in M["nx"]]
@@ -235,6 +246,32 @@ def compare_case(c, K, fmt, mo, A, B, files):
                     bad.append(("%s:%s:atom-force" % (fam, tag), (blk["it"], blk["atomf"]["1"][2]), float.fromhex(m["FA"])))
                     return
 
+    if fam == "meta":
+        nd = len(c["model"]["vars"])
+        pending = "pending-hills" in (c.get("sigtags") or [])
+        for tag, impl_steps, off in (("A", A, K + 1), ("B", B, 0)):
+            ms = mo[tag]
+            if len(ms) != len(impl_steps) - off:
+                bad.append(("meta:%s:steps" % tag, len(impl_steps) - off, len(ms)))
+                continue
+            for j, m in enumerate(ms):
+                blk = impl_steps[off + j]
+                fi = [blk["atomf"][str(i + 1)][2] for i in range(nd)]
+                if int(m["it"]) != blk["it"] or not close(blk["bias"].get("m", float("nan")), float.fromhex(m["E"])) \
+                   or not cmp_list(fi, flist(m["F"])):
+                    bad.append(("meta:%s:energy-force" % tag, (blk["it"], blk["bias"].get("m"), fi),
+                                (m["it"], float.fromhex(m["E"]), flist(m["F"]))))
+                    break
+        # explicit hills in the state file written after step K (text): their number
+        if fmt == "text":
+            try:
+                txt = open(files["a"], errors="replace").read()
+            except OSError:
+                txt = ""
+            nh = len(re.findall(r"(?m)^\s*hill\s*\{", txt))
+            if nh != int(mo["S"]["NH"]):
+                bad.append(("meta:state:hills", nh, int(mo["S"]["NH"])))
+        return bad
     if fam == "abf":
         nd = c["model"]["nd"]
         for tag, impl_steps, off in (("A", A, K + 1), ("B", B, 0)):
